@@ -82,14 +82,41 @@ def scenario(sim):
     pool = list(HOSTKEYS)
     hks = [pool.pop(sim.choose(len(pool))) for _ in range(nkeys)]
     strict_c, strict_s = bool(sim.choose(4)), bool(sim.choose(4))
+    adversary = None
+    asym = False
+    if sim.choose(3) == 0:
+        adversary = ("client", "server")[sim.choose(2)]
+        asym = bool(sim.choose(2))
+    pkw = {}
+    if asym:
+        # the adversary's KEXINIT carries DIFFERENT lists for the two directions (legal per RFC 4253,
+        # never produced by paramiko itself): rewritten before it is sent
+        def mutate_out(pk, payload):
+            if payload[0] != 20:
+                return [payload]
+            r = wiretap.Reader(payload)
+            r.byte()
+            cookie = bytes(r.d[r.i:r.i + 16]); r.i += 16
+            lists = [r.namelist() for _ in range(10)]
+            tail = r.rest()
+            for cat, (i, j) in (("ciphers", (2, 3)), ("macs", (4, 5)), ("compression", (6, 7))):
+                k = (i, j)[sim.choose(2)]
+                lists[k] = subset_order(sim, CATS[cat], 0.5)
+            sim.fault("asymmetric_kexinit")
+            out = bytes([20]) + cookie
+            for l in lists:
+                b = ",".join(l).encode()
+                out += len(b).to_bytes(4, "big") + b
+            return [out + tail]
+        plog = []
+        key = "client_pk" if adversary == "client" else "server_pk"
+        pkw[key] = ssh.byzantine_packetizer("c" if adversary == "client" else "s", plog, mutate_out=mutate_out)
     p = ssh.tapped_pair(sim, link=link, host_keys=tuple(hks),
-                        client_kw={"strict_kex": strict_c}, server_kw={"strict_kex": strict_s})
+                        client_kw={"strict_kex": strict_c}, server_kw={"strict_kex": strict_s}, **pkw)
     cheap = sim.choose(4) != 0
     cc = configure_side(sim, p.tc, cheap)
     sc = configure_side(sim, p.ts, cheap)
-    adversary = None
-    if sim.choose(3) == 0:
-        adversary = ("client", "server")[sim.choose(2)]
+    if adversary is not None:
         t = p.tc if adversary == "client" else p.ts
         junk = ["made-up-kex@example.com", "ext-info-s", "ext-info-c", "kex-strict-s-v00@openssh.com",
                 "kex-strict-c-v00@openssh.com", "kex-strict-c-v01@openssh.com", "", "curve25519-sha256"]
@@ -103,7 +130,8 @@ def scenario(sim):
                 l2 = list(getattr(t, attr))
                 l2.insert(sim.choose(len(l2) + 1), "unknown-%s@example.com" % cat)
                 setattr(t, attr, tuple(l2))
-    desc = {"client": cc, "server": sc, "hostkeys": hks, "strict": [strict_c, strict_s], "adversary": adversary}
+    desc = {"client": cc, "server": sc, "hostkeys": hks, "strict": [strict_c, strict_s], "adversary": adversary,
+            "asymmetric_lists": asym}
     exc_c = None
     try:
         p.start(timeout=60)
@@ -148,7 +176,8 @@ def scenario(sim):
             if isinstance(exc, IncompatiblePeer) or isinstance(t.get_exception(), IncompatiblePeer):
                 raise Violation(("C05", "incompatible-although-common-algorithms", name),
                                 "%s raised IncompatiblePeer although every category has a common algorithm: %r" % (name, exc or t.get_exception()), desc)
-            if not (t.is_active() and t.initial_kex_done):
+            parsed = bool(tap.agreed_kex[0 if name == "client" else 1])
+            if not (t.is_active() and t.initial_kex_done) and not (adversary is not None and parsed):
                 if adversary is not None:
                     continue   # the adversary's junk may legitimately break the exchange on its own side
                 raise Violation(("C05", "exchange-failed", name, type(exc).__name__ if exc else "none"),
